@@ -131,7 +131,8 @@ pub fn observe_state<const N: usize>(t: &Tree<N>, s: &mut String) {
     }
     write!(s, "|R={}", ranges_str(t)).unwrap();
     s.push_str("|N=");
-    for n in t.node_iter() {
+    // bounded: an iterator that wrongly cycles must not hang the observer
+    for n in t.node_iter().take(200_000) {
         write!(s, "{}={},", n.key().idx, hexz(n.value_hash().as_bytes())).unwrap();
     }
 }
